@@ -104,12 +104,17 @@ def harness(name, cmd, cases, timeout_ms=5000, batch_timeout=600, confirm_hangs=
     believed: on a loaded machine a worker may simply not have been scheduled."""
     results = _harness_once(name, cmd, cases, timeout_ms, batch_timeout)
     if confirm_hangs:
+        confirmed = 0
         for k, r in enumerate(results):
             if isinstance(r, dict) and r.get("hang") and k < len(cases):
+                if confirmed >= 3:
+                    continue       # three hangs have been confirmed at ten times the limit: the others are believed as they are
                 t = max(20000, 10 * int(cases[k].get("timeout_ms", timeout_ms)))
                 again = _harness_once(name, cmd, [dict(cases[k], timeout_ms=t)], t, batch_timeout=max(60, t // 1000 + 30))
                 if again:
                     results[k] = again[0]
+                    if isinstance(again[0], dict) and again[0].get("hang"):
+                        confirmed += 1
     return results
 
 
@@ -135,6 +140,11 @@ def _harness_once(name, cmd, cases, timeout_ms, batch_timeout):
                 break
         results.extend(got)
         i += len(got)
+        if sum(1 for r_ in results if isinstance(r_, dict) and r_.get("hang")) >= 15 and i < n:
+            # a change that makes very many inputs hang: every hang costs a time limit and a new worker; stop here, the
+            # hangs seen so far are reported and the remaining cases of the batch are marked as not run
+            results.extend({"hang": True, "not_run": "batch stopped after 15 hanging cases"} for _ in range(n - i))
+            return results
         if i < n and (rc != 0 or len(got) == 0):
             if got and got[-1].get("hang"):
                 continue  # worker left after reporting a hang; resume with the next case
